@@ -318,6 +318,10 @@ pub async fn poll_as_group(h: &mut Harness, c: usize, sid: u32, tid: u32, partit
                 h.stats.probe("member_without_partitions_polled");
                 return;
             }
+            if !topic.partitions.contains_key(&polled.partition_id) {
+                h.violate("C08", "exclusive_assignment", "unknown_partition_served", format!("member {client_id} of group {gid} was served from partition {}, which the topic does not have", polled.partition_id));
+                return;
+            }
             if !share.contains(&polled.partition_id) {
                 h.violate("C08", "served_only_from_own_share", "foreign_partition", format!("member {client_id} of group {gid} holds {share:?} but was served from partition {}", polled.partition_id));
                 return;
